@@ -20,12 +20,44 @@
 (* violate an invariant (non-vacuity configurations).                                           *)
 EXTENDS Integers, FiniteSets, TLC
 
-CONSTANTS Readers, Writers, NS, Recheck, Revoke, Rollback
+CONSTANTS
+  \* @type: Set(PROC);
+  Readers,
+  \* @type: Set(PROC);
+  Writers,
+  \* @type: Int;
+  NS,
+  \* @type: Bool;
+  Recheck,
+  \* @type: Bool;
+  Revoke,
+  \* @type: Bool;
+  Rollback
 
 Procs == Readers \cup Writers
 Slots == 0..(NS - 1)
 
-VARIABLES rbias, slots, rwR, rwW, inh, pc, base, idx, val, tok
+VARIABLES
+  \* @type: Int;
+  rbias,
+  \* @type: Int -> Int;
+  slots,
+  \* @type: Int;
+  rwR,
+  \* @type: Bool;
+  rwW,
+  \* @type: Bool;
+  inh,
+  \* @type: PROC -> Str;
+  pc,
+  \* @type: PROC -> Int;
+  base,
+  \* @type: PROC -> Int;
+  idx,
+  \* @type: PROC -> Int;
+  val,
+  \* @type: PROC -> Int;
+  tok
 vars == <<rbias, slots, rwR, rwW, inh, pc, base, idx, val, tok>>
 
 Init == /\ rbias = 1 /\ slots = [s \in Slots |-> 0] /\ rwR = 0 /\ rwW = FALSE /\ inh = FALSE
